@@ -18,6 +18,8 @@ function.  Ids are built with the child / descendant functions REGENERATED from 
   reports_consistent  cut rows = the edges whose end point ids differ (file order), assignment rows = the ids
   hierarchy           reading a node's id top-down gives the sides of the Spec's depth-first recursion
   level_exact         if every reached cell is split and every node has an outgoing edge, every id has level r
+  …_subStep           the same for the model of the real `sub_step`, through C03 (`subStep_stepSpec`,
+                      `subStep_total`): no assumption about the step is left
 -/
 namespace Tbx.Props.C05
 open Tbx Tbx.Chipper Tbx.Hierarchy Tbx.InertialFlow Tbx.Gen
@@ -177,14 +179,14 @@ theorem best_is_valid_min (coord : Nat → Coord) (n : Nat) (kOf : Nat → Nat)
   exact ⟨a, ha, Tbx.Props.C03.sub_step_valid job.edges job.ids coord a _ _ x hjob.nodup hjob.two hk1 hk2
     (fun e he => hjob.src e he) hjob.small hok, h1, h2⟩
 
-/-- totality of `Tbx.InertialFlow.subStep` on well-formed jobs (it completes under some bound, it never
-    reaches a panic / out-of-fuel branch; see `Tbx.Chipper.StepTotal`).  Not proved: it needs termination of
-    the Dinic model within its fuel on every input.  The driver reports a model panic on every case. -/
-def subStep_total_statement : Prop :=
-  ∀ (coord : Nat → Coord) (n : Nat) (kOf : Nat → Nat), (∀ s, 2 ≤ s → 1 ≤ kOf s ∧ 2 * kOf s ≤ s) →
-    StepTotal n (fun e ids a k β => subStep e ids coord a k β) kOf
+/-- totality of `Tbx.InertialFlow.subStep` on well-formed jobs: it completes under some bound and never
+    reaches a panic / out-of-fuel branch (C03 `sub_step_total`, from C01/C02's total correctness of Dinic) -/
+theorem subStep_total (coord : Nat → Coord) (n : Nat) (kOf : Nat → Nat)
+    (hk : ∀ s, 2 ≤ s → 1 ≤ kOf s ∧ 2 * kOf s ≤ s) :
+    StepTotal n (fun e ids a k β => subStep e ids coord a k β) kOf :=
+  Tbx.Chipper.subStep_total coord n kOf hk
 
-/-- `level_exact` for the real step model, given totality: if in every well-formed cell whose nodes all have
+/-- `level_exact` for the real step model: if in every well-formed cell whose nodes all have
     an outgoing edge SOME axis has a cut of at most the cell's node count ("every cut stays below the cell's
     node count" of the property's domain, needed for one axis only), every id has level exactly r. -/
 theorem level_exact_subStep (coord : Nat → Coord) (cfg : Cfg) (edges : List Chipper.Edge) (n : Nat)
@@ -192,12 +194,12 @@ theorem level_exact_subStep (coord : Nat → Coord) (cfg : Cfg) (edges : List Ch
     (hsmall : 2 * edges.length + 6 < Tbx.Flow.INV)
     (hout : ∀ x, x < n → ∃ e ∈ edges, e.1 = x)
     (hk : ∀ s, 2 ≤ s → 1 ≤ cfg.kOf s ∧ 2 * cfg.kOf s ≤ s)
-    (htotal : StepTotal n (fun e ids a k β => subStep e ids coord a k β) cfg.kOf)
     (hcut : ∀ job, JobOK n job → JobFull job → ∃ a, a < 4 ∧ ∃ (β : Int) (r : FlowRes),
       subStep job.edges job.ids coord a (cfg.kOf job.ids.length) β = .ok r ∧ r.flow ≤ (job.ids.length : Int))
     (out : Array Nat × List (List Job))
     (h : chipper (fun e ids a k β => subStep e ids coord a k β) cfg edges n = some out) :
     ∀ x, x < n → pidLevel (gt out.1 x) = cfg.r := by
+  have htotal := subStep_total coord n cfg.kOf hk
   apply level_exact _ cfg edges n hm hn hr hsrc hsmall hout (subStep_stepSpec coord n cfg.kOf hk) ?_ out h
   intro job hjob hfull
   obtain ⟨a, ha, β, r, hok, hle⟩ := hcut job hjob hfull
